@@ -258,6 +258,30 @@ def denoteAt (f : Forest) (ins : List Nat) (P : Program) (r : Nat) : Option Tree
     | none => none
   | none => none
 
+/-! ### Addresses without names (for the statement of what is NOT proved: handle-independence) -/
+
+mutual
+  /-- The path of raw child indices from the root of the tree to the node named `h`. -/
+  def pathIn (h : Nat) : HTree → Option (List Nat)
+    | .node h' _ ks => if h' = h then some [] else pathInList h 0 ks
+  /-- … in a child list (or the list of parentless trees) whose first member has the index `i`. -/
+  def pathInList (h : Nat) (i : Nat) : List HTree → Option (List Nat)
+    | [] => none
+    | k :: ks =>
+      match pathIn h k with
+      | some p => some (i :: p)
+      | none => pathInList h (i + 1) ks
+end
+
+/-- Where the node `h` lies, said without names: the index of its parentless tree, then the path. -/
+def addressOf (f : Forest) (h : Nat) : Option (List Nat) := pathInList h 0 f.roots
+
+/-- Two stores with inputs that cannot be told apart without looking at node names: the same pure
+    trees in the same order, the same settings, the inputs at the same places. -/
+def SameUpToNames (f1 : Forest) (ins1 : List Nat) (f2 : Forest) (ins2 : List Nat) : Prop :=
+  f1.content = f2.content ∧ f1.consolidation = f2.consolidation ∧ f1.everOff = f2.everOff ∧
+  ins1.map (addressOf f1) = ins2.map (addressOf f2) ∧ ∀ h ∈ ins1, (addressOf f1 h).isSome
+
 /-- `P`, run in the store `f` with the inputs `ins`, ends in the tree `T` at the result `root`. -/
 def Constructs (f : Forest) (ins : List Nat) (P : Program) (root : Nat) (T : Tree) : Prop :=
   denoteAt f ins P root = some T
